@@ -87,6 +87,28 @@ def impl_parse(text, mode="auto", want_segments=True, limit_s=3.0):
                 res[which] = {"crash": type(e).__name__, "site": core.crash_site(e)}
             finally:
                 signal.setitimer(signal.ITIMER_VIRTUAL, 0)
+        # stringification of a text that parses (C14 observes YAMLPath(text).escaped / .unescaped / str()): it may not
+        # raise anything but the library's exception either, and it must end
+        if "ok" in res.get("unesc", {}):
+            signal.setitimer(signal.ITIMER_VIRTUAL, limit_s)
+            try:
+                p = YAMLPath(text)
+                if mode == "dot":
+                    p._separator = PathSeparators.DOT
+                elif mode == "fslash":
+                    p._separator = PathSeparators.FSLASH
+                str(p)
+                res["str"] = {"ok": 1}
+            except ParseTimeout:
+                res["str"] = {"timeout": 1}
+            except YAMLPathException:
+                res["str"] = {"ypath": 1}
+            except RecursionError as e:
+                res["str"] = {"crash": "RecursionError", "site": core.crash_site(e)}
+            except Exception as e:  # noqa
+                res["str"] = {"crash": type(e).__name__, "site": core.crash_site(e)}
+            finally:
+                signal.setitimer(signal.ITIMER_VIRTUAL, 0)
     finally:
         signal.signal(signal.SIGVTALRM, old)
     return res
@@ -246,6 +268,11 @@ def compare_chunk(args):
             elif what == "segments" and ic == "ok" and io["ok"] != mo_["ok"]:
                 disag.append(("segments", "segments of %r (%s, %s) differ" % (t, which, m),
                               {"text": t, "sep": m, "which": which, "impl": io, "model": mo_}))
+        so = im.get("str")
+        if so is not None and out_class(so) in ("crash", "timeout"):
+            sig = ("str:crash:%s@%s" % (so.get("crash"), so.get("site"))) if "crash" in so else "str:timeout"
+            viol.append((sig, "str(YAMLPath(%s)) (separator %s) raised %s although the text parses" % (short(t), m, so.get("crash", "timeout")),
+                         {"text": t, "sep": m, "which": "str", "impl": so}))
         if len(samples) < 2 and cls == "ok" and len(t) > 3:
             samples.append({"text": t, "sep": m, "impl": im["esc"], "model": mo["esc"]})
     return stats, viol[:50], disag[:50], samples
